@@ -3,6 +3,7 @@ package main
 import (
 	"fmt"
 	"go/token"
+	"go/types"
 
 	"golang.org/x/tools/go/ssa"
 )
@@ -256,6 +257,28 @@ func classifyLoop(fn *ssa.Function, l *loopInfo, consuming map[*ssa.Function]boo
 					dep = true
 				}
 			}
+			// or on a field that the consuming callee sets (error / mode latch of the receiver)
+			if !dep {
+				latched := map[*types.Var]bool{}
+				for _, x := range ccalls {
+					if cal := x.(*ssa.Call).Common().StaticCallee(); cal != nil {
+						for _, b := range cal.Blocks {
+							for _, in := range b.Instrs {
+								if st, ok := in.(*ssa.Store); ok {
+									if fv := fieldVar(st.Addr); fv != nil {
+										latched[fv] = true
+									}
+								}
+							}
+						}
+					}
+				}
+				for _, iff := range exits {
+					if loadsLatched(iff.Cond, latched, 0) {
+						dep = true
+					}
+				}
+			}
 			if dep {
 				return "input-consuming: every cycle performs a read on the source and an exit test depends on its result"
 			}
@@ -289,6 +312,31 @@ func dependsOn(v ssa.Value, calls map[ssa.Instruction]bool, depth int, seen map[
 		return dependsOn(x.X, calls, depth+1, seen)
 	case *ssa.ChangeType:
 		return dependsOn(x.X, calls, depth+1, seen)
+	}
+	return false
+}
+
+func loadsLatched(v ssa.Value, latched map[*types.Var]bool, depth int) bool {
+	if depth > 6 {
+		return false
+	}
+	switch x := v.(type) {
+	case *ssa.UnOp:
+		if x.Op == token.MUL {
+			if fv := fieldVar(x.X); fv != nil && latched[fv] {
+				return true
+			}
+			return false
+		}
+		return loadsLatched(x.X, latched, depth+1)
+	case *ssa.BinOp:
+		return loadsLatched(x.X, latched, depth+1) || loadsLatched(x.Y, latched, depth+1)
+	case *ssa.Phi:
+		for _, e := range x.Edges {
+			if loadsLatched(e, latched, depth+1) {
+				return true
+			}
+		}
 	}
 	return false
 }
